@@ -28,6 +28,9 @@ def run(ctx):
     n = ereduce.run(ctx, F)
     ctx.floor("E-TABLE.reduce", "abstract situations of the reduce functions", n, 400)
     ecanon.check_level_swap_order(ctx, F)
+    ctx.explain("E-CANON (key, funnel, sites): node equality and hash read the children only (level numbers are rewritten in "
+                "place during reordering), nodes are created through get_or_insert under the looked-up hash.")
+    ecanon.run(ctx, F)
     ctx.explain("E-WHO: the operations that temporarily break the level invariants (swap, take, insert_unchecked, "
                 "get_or_insert_unchecked, set_child, set_level) are called only from oxidd-reorder; node-removal "
                 "primitives only from gc / try_remove_node / level views, gated by reorder_gc_prepared / "
